@@ -299,4 +299,62 @@ def parseV21Block (c : CryptoOps) (pointOk : Bytes → Bool) (data : Bytes) : Py
       pure (some i)
   pure { major := major, minor := minor, rkr := rkr, isk := isk }
 
+
+/-! ### ISK certificate "lite" / certificate block Vx (MC56F8xxxx): `magic 0x4D43 | version 1 | constraints | X‖Y (64) | signature (64)`
+    (added in phase 2; nothing above is changed) -/
+
+namespace GL
+export SpsdkVerif.Generated.RotTypes (liteMagic liteVersion liteHeaderFormat liteHeaderWidths litePubKeyLength liteSignatureSize
+  liteSignatureOffset vxCertHashLength)
+end GL
+
+structure IskLite where
+  constraints : Nat
+  pubKey : Bytes
+  signature : Bytes
+  deriving Repr, DecidableEq
+
+/-- `IskCertificateLite.get_tbs_data` -/
+def liteTbs (i : IskLite) : PyRes Bytes := do
+  let m ← packLE 2 GL.liteMagic
+  let v ← packLE 2 GL.liteVersion
+  let c ← packLE 4 i.constraints
+  if i.pubKey.length ≠ GL.litePubKeyLength then throw .spsdk
+  let data := m ++ v ++ c ++ i.pubKey
+  if data.length ≠ GL.liteSignatureOffset then throw .spsdk
+  pure data
+
+/-- `IskCertificateLite.export` -/
+def liteExport (i : IskLite) : PyRes Bytes := do
+  if i.signature.isEmpty then throw .spsdk
+  let t ← liteTbs i
+  let data := t ++ i.signature
+  if data.length ≠ 4 + 4 + GL.litePubKeyLength + GL.liteSignatureSize then throw .spsdk
+  pure data
+
+/-- `IskCertificateLite.parse`: magic and version are not looked at; the key must be a P-256 point (`pointOk`) -/
+def liteParse (pointOk : Bytes → Bool) (data : Bytes) : PyRes IskLite := do
+  let (_, r) ← unpackLE 2 data
+  let (_, r) ← unpackLE 2 r
+  let (cons, _) ← unpackLE 4 r
+  let pk := (data.drop 8).take GL.litePubKeyLength
+  let sig := (data.drop (8 + GL.litePubKeyLength)).take GL.liteSignatureSize
+  if !pointOk pk then throw .spsdk
+  pure { constraints := cons, pubKey := pk, signature := sig }
+
+/-- `CertBlockVx.parse`: the constraints word is reduced to self-signed yes / no -/
+def vxParse (pointOk : Bytes → Bool) (data : Bytes) : PyRes IskLite := do
+  let i ← liteParse pointOk data
+  pure { i with constraints := if i.constraints = 0 then 0 else 1 }
+
+/-- `CertBlockVx.cert_hash`: first 16 bytes of SHA-256 of the exported certificate -/
+def vxCertHash (c : CryptoOps) (i : IskLite) : PyRes Bytes := do
+  let e ← liteExport i
+  pure ((c.hash .sha256 e).take GL.vxCertHashLength)
+
+/-- the fuse words of `CertBlockVx.get_otp_script`: `change_endianness(cert_hash)` split in 4-byte groups
+    = each group of the hash byte-reversed -/
+def vxFuseWords (h : Bytes) : List Bytes :=
+  [(h.take 4).reverse, ((h.drop 4).take 4).reverse, ((h.drop 8).take 4).reverse, ((h.drop 12).take 4).reverse]
+
 end SpsdkVerif.CertBlock
